@@ -147,7 +147,7 @@ func (g *gen) point(v int, locChance int) string {
 	if g.r.Chance(1, 5) {
 		k = v + skelx.Slots*(1+g.r.Intn(2)) // same direction, farther out
 	}
-	if g.r.Chance(1, 12) {
+	if g.r.Chance(1, 40) {
 		k = g.r.Intn(skelx.Slots) // anywhere: may coincide with another point
 	}
 	g.slots[id] = append(g.slots[id], k)
@@ -478,6 +478,9 @@ func corpus(c *hx.Ctx) {
 			"mw.new", "mw.add p1=;loc=1", "mw.add p2=;loc=2", "mw.add p3=;loc=3", "mw.add w10=p3,p2,p1,p3", "mw.add w10=p1,p2,p3,p1", "mw.add a20=w10",
 			"mw.add w10=p1,p2", "mw.add p2=;noloc"},
 		{"oracle [1.2.3=vc]", "validator pts=[p1=;loc=1 p2=;loc=2 p3=;loc=3] src=[a20=w10 a21=w11 w10=p1,p2,p3,p1 w11=p1,p2]"},
+		// finding degenerate_loop: points 3 and 6 coincide; S2 calls the loop valid and clockwise both ways
+		{"oracle [25.6.5.6=vw]", "validator pts=[p1=;loc=25 p3=;loc=6 p5=;loc=5 p6=;loc=6] src=[w12=p1,p3,p5,p6,p1]",
+			"build basic invert=1 cores=1 src=[p1=;loc=25 p3=;loc=6 p5=;loc=5 p6=;loc=6 w12=p1,p3,p5,p6,p1]"},
 	}
 	for i, a := range skelx.Batch(c, scripts) {
 		emit(c, scripts[i], a)
@@ -500,7 +503,7 @@ func main() {
 		Name: "c37",
 		Rule: "generated sources (points with / without / moved / coinciding locations; paths open, closed counter-clockwise, clockwise, shuffled, too short, degenerate, through a missing point, with a repeated vertex; areas over valid, invalid, open and missing paths; relations) built by BasicWorldBuilder.Finish (invert on/off, 1 and 4 cores, shuffled order), streamed through compact.Validator in random order, and edit histories on a BasicMutableWorld (add, replace, move and unlocate points, replace paths under areas); S2's verdict on every closed loop is an oracle table computed by the harness; cases run in child processes; non-trivial = a build / validator run dropped at least one feature, or an edit was rejected; distinct = by hash of the op text",
 		Quick:    2400,
-		Thorough: 60000,
+		Thorough: 20000,
 		Corpus:   corpus,
 		Case: func(c *hx.Ctx) {
 			start := c.CaseNo - c.CaseNo%batchSize
